@@ -137,10 +137,35 @@ def gen_seeds() -> str:
     return "\n".join(rows) + f"\n\n{len(rows) - 2} seeded changes; results recorded by `tools/run_seeds.py --record` at /repo {res.get('_head', '?')}.\n"
 
 
+def gen_stats() -> str:
+    def loc(globpat: str) -> int:
+        return sum(sum(1 for _ in f.open()) for f in (ROOT / "lean" / "Kopf").glob(globpat))
+    nth = ntie = 0
+    props = [json.loads(l)["id"] for l in (ROOT / "properties.jsonl").read_text().splitlines() if l.strip()]
+    for pid in props:
+        try:
+            mod = importlib.import_module(f"harness.props.{pid.lower()}")
+            nth += len(getattr(mod, "THEOREMS", []))
+            ntie += len(getattr(mod, "TIE_THEOREMS", []))
+        except Exception:  # noqa: BLE001
+            pass
+    man = json.loads((ROOT / "MANIFEST.json").read_text())
+    py = sum(sum(1 for _ in f.open()) for f in (ROOT / "harness").rglob("*.py"))
+    fs = findings()
+    seeds = [d for d in (ROOT / "seeded").iterdir() if d.is_dir()]
+    return (f"Numbers (generated): {len(man['checks'])} of {len(props)} properties claimed (`MANIFEST.json`, "
+            f"`not_applicable`: {len(man.get('not_applicable', []))}); Lean: {loc('Model/*.lean')} lines of models, "
+            f"{loc('Lemmas/*.lean')} of lemmas, {loc('Props/*.lean')} of property theorems, {loc('Tie/*.lean')} of tie theorems, "
+            f"{loc('Drv/*.lean')} of driver; {nth} property theorems + {ntie} tie theorems named by the checks, each audited on "
+            f"every run to depend on at most `propext`, `Classical.choice`, `Quot.sound`; {py} lines of Python harness; "
+            f"{len(repo_log())} `fix:` commits in `/repo`; {sum(1 for f in fs if f.get('status') == 'fixed')} findings fixed, "
+            f"{sum(1 for f in fs if f.get('status') == 'open')} open; {len(seeds)} seeded property-breaking changes under `seeded/`.")
+
+
 def main() -> int:
     p = ROOT / "DESIGN.md"
     s = p.read_text()
-    for key, fn in (("PROPS", gen_props), ("FIXED", gen_fixed), ("OPEN", gen_open), ("SEEDS", gen_seeds)):
+    for key, fn in (("STATS", gen_stats), ("PROPS", gen_props), ("FIXED", gen_fixed), ("OPEN", gen_open), ("SEEDS", gen_seeds)):
         a, b = f"<!-- GEN:{key} begin -->", f"<!-- GEN:{key} end -->"
         if a not in s or b not in s:
             print(f"marker {key} missing", file=sys.stderr)
